@@ -265,7 +265,7 @@ End Prog.
 
 (* ------------------------------------------------------------------ one field *)
 Definition target (t : ty) : option name :=
-  match seen_through t with Cls c | Enum c | Fwd c => Some c | _ => None end.
+  match seen_through t with Cls c | Enum c | Fwd c | FwdLocal c => Some c | _ => None end.
 
 Lemma about_target t d : about t d = true <-> target t = Some d.
 Proof.
@@ -279,20 +279,40 @@ Definition field_edges (ns : list name) (c : name) (x : fdecl) : list edge :=
   | None => []
   end.
 
-Lemma field_edge_ok p ns c x : wf_ann (f_ann x) = true -> leaf_ok p (f_ann x) = true ->
+Lemma field_edge_ok p ns c x : wf_ann (f_ann x) = true -> leaf_ok p (f_ann x) = true -> locals_in ns (f_ann x) = true ->
   field_edge p ns c x = Ok (field_edges ns c x).
 Proof.
-  destruct x as [n pr t d df]. unfold field_edge, field_edges, target. cbn [f_ann f_name f_default f_factory].
-  intros W L.
-  destruct t as [b|c'|e|a|k a|a|n'|a|a|k v|o|]; try discriminate W;
+  destruct x as [n pr t d df]. unfold field_edge, field_edges, target, locals_in. cbn [f_ann f_name f_default f_factory].
+  intros W L Hl.
+  destruct t as [b|c'|e|a|k a|a|n'|a|a|k v|o| |n']; try discriminate W;
     try (destruct b; try discriminate W; reflexivity);
     try reflexivity;
-    try (unfold leaf_ok in L; cbn in L; cbn; unfold resolve_name;
-         destruct (find_decl p n') as [d'|]; try discriminate L; destruct (d_kind d'); reflexivity);
-    destruct a as [b|c'|e|a|k' a|a|n'|a|a|k' v|o|]; try discriminate W;
+    try (unfold leaf_ok in L; cbn in L; cbn in Hl; cbn; try rewrite Hl; unfold resolve_name;
+         destruct (find_decl p n') as [d'|]; try discriminate L; destruct (d_kind d'); cbn; try rewrite Hl; reflexivity);
+    destruct a as [b|c'|e|a|k' a|a|n'|a|a|k' v|o| |n']; try discriminate W;
     try (destruct b; try discriminate W); try (destruct k); try reflexivity;
-    unfold leaf_ok in L; cbn in L; cbn; unfold resolve_name;
-    destruct (find_decl p n') as [d'|]; try discriminate L; destruct (d_kind d'); reflexivity.
+    unfold leaf_ok in L; cbn in L; cbn in Hl; cbn; try rewrite Hl; unfold resolve_name;
+    destruct (find_decl p n') as [d'|]; try discriminate L; destruct (d_kind d'); cbn; try rewrite Hl; reflexivity.
+Qed.
+
+Lemma resolve_ok p ns t : wf_ann t = true -> leaf_ok p t = true -> locals_in ns t = true ->
+  exists rt, resolve p ns t = Ok rt.
+Proof.
+  unfold locals_in. intros W L Hl.
+  destruct t as [b|c'|e|a|k a|a|n'|a|a|k v|o| |n']; try discriminate W;
+    try (eexists; reflexivity);
+    try (unfold leaf_ok in L; cbn in L; cbn in Hl; cbn; try rewrite Hl; unfold resolve_name;
+         destruct (find_decl p n') as [d'|]; try discriminate L; eexists; reflexivity);
+    destruct a as [b|c'|e|a|k' a|a|n'|a|a|k' v|o| |n']; try discriminate W;
+    try (eexists; reflexivity);
+    unfold leaf_ok in L; cbn in L; cbn in Hl; cbn; try rewrite Hl; unfold resolve_name;
+    destruct (find_decl p n') as [d'|]; try discriminate L; eexists; reflexivity.
+Qed.
+
+Lemma mcheck_ok {A B} (f : A -> res B) l : (forall x, In x l -> exists y, f x = Ok y) -> mcheck f l = Ok tt.
+Proof.
+  induction l as [|x l IH]; simpl; intro H; auto.
+  destruct (H x) as [y Hy]; auto. rewrite Hy. simpl. apply IH. auto.
 Qed.
 
 (* ------------------------------------------------------------------ assembling the diagram *)
@@ -367,10 +387,10 @@ Section Build.
   Hypothesis Hcs : wf_classes p cs = true.
 
   Let Hcs_nodup : NoDup cs.
-  Proof. unfold wf_classes in Hcs. apply andb_true_iff in Hcs as [H _]. now apply nodupb_NoDup. Qed.
+  Proof. pose proof Hcs as H0. unfold wf_classes in H0. repeat (apply andb_true_iff in H0 as [H0 ?]). now apply nodupb_NoDup. Qed.
   Let Hcs_decl : forall c, In c cs -> In c (names_of p).
   Proof.
-    unfold wf_classes in Hcs. apply andb_true_iff in Hcs as [_ H]. rewrite forallb_forall in H.
+    pose proof Hcs as H0. unfold wf_classes in H0. repeat (apply andb_true_iff in H0 as [H0 ?]). rename H into Hf. pose proof Hf as H. rewrite forallb_forall in H.
     intros c Hc. specialize (H c Hc). destruct (find_decl p c) as [d|] eqn:E; [|discriminate].
     apply find_decl_In in E as [E1 E2]; auto. subst c. now apply in_map.
   Qed.
@@ -385,12 +405,27 @@ Section Build.
     rewrite (tab_correct c (Hcs_decl c Hc) x). tauto.
   Qed.
 
+  Lemma field_facts x : In x (all_fields p) ->
+    wf_ann (f_ann x) = true /\ leaf_ok p (f_ann x) = true /\ locals_in cs (f_ann x) = true.
+  Proof.
+    intro Hx. destruct Hparts as [_ [_ H]]. rewrite forallb_forall in H.
+    specialize (H x Hx). apply andb_true_iff in H as [H1 H2]. repeat split; auto.
+    pose proof Hcs as H0. unfold wf_classes in H0. repeat (apply andb_true_iff in H0 as [H0 ?]).
+    rewrite forallb_forall in H0. auto.
+  Qed.
+
   Lemma assoc_edges_ok : assoc_edges p cs = Ok assoc_list.
   Proof.
-    unfold assoc_edges, assoc_list. apply mconcat_ok. intros c Hc. apply mconcat_ok. intros x Hx.
-    apply public_fields_In in Hx as [_ [a [_ Hx]]]; auto.
-    apply declares_all in Hx. destruct Hparts as [_ [_ H]]. rewrite forallb_forall in H.
-    specialize (H x Hx). apply andb_true_iff in H as [H1 H2]. now apply field_edge_ok.
+    unfold assoc_edges, assoc_list. apply mconcat_ok. intros c Hc. unfold class_edges.
+    assert (G : mconcat (field_edge p cs c) (public_fields (tab p) c)
+                = Ok (flat_map (field_edges cs c) (public_fields (tab p) c))).
+    { apply mconcat_ok. intros x Hx.
+      apply public_fields_In in Hx as [_ [a [_ Hx]]]; auto.
+      apply declares_all in Hx. destruct (field_facts x Hx) as [H1 [H2 H3]]. now apply field_edge_ok. }
+    destruct (public_fields (tab p) c) eqn:E; [reflexivity|].
+    rewrite mcheck_ok; [exact G|].
+    intros x Hx. apply (tab_correct c (Hcs_decl c Hc) x) in Hx as [a [_ Hx]].
+    apply declares_all in Hx. destruct (field_facts x Hx) as [H1 [H2 H3]]. now apply resolve_ok.
   Qed.
 
   Lemma build_eq : build p cs = Ok (mk_graph cs (inh_edges p cs ++ assoc_list)).
